@@ -37,11 +37,11 @@ func (c17) Plan(tier string) []core.Segment {
 	return []core.Segment{
 		{Gen: "small", Profile: small, Count: gen.Size("small", small), Exhaustive: true, Desc: "all strings up to the bound over {<,>,!,-,?,/,script,SP,\",a,LF}"},
 		{Gen: "spec", Count: gen.CorpusSize(), Exhaustive: true},
-		{Gen: "soup", Profile: "html", Count: scale(tier, 250_000, 10_000_000)},
-		{Gen: "htmlmix", Count: scale(tier, 150_000, 6_000_000), Desc: "templates placing comments, CDATA, PIs, declarations, stray '<', quoted '>' before raw-text elements, as HTML blocks and inline"},
-		{Gen: "lines", Profile: "default", Count: scale(tier, 50_000, 2_000_000)},
-		{Gen: "soup", Profile: "default", Count: scale(tier, 50_000, 2_000_000)},
-		{Gen: "specmut", Count: scale(tier, 50_000, 2_000_000)},
+		{Gen: "soup", Profile: "html", Count: scale(tier, 750_000, 10_000_000)},
+		{Gen: "htmlmix", Count: scale(tier, 450_000, 6_000_000), Desc: "templates placing comments, CDATA, PIs, declarations, stray '<', quoted '>' before raw-text elements, as HTML blocks and inline"},
+		{Gen: "lines", Profile: "default", Count: scale(tier, 150_000, 2_000_000)},
+		{Gen: "soup", Profile: "default", Count: scale(tier, 150_000, 2_000_000)},
+		{Gen: "specmut", Count: scale(tier, 150_000, 2_000_000)},
 	}
 }
 
